@@ -783,6 +783,69 @@ class Run(object):
             self.corr("config_to_str", to_str_mismatch, found=self.rt_failed)
         return text
 
+    # ---- the SAME profile / path written again: what is loaded is what is on disk now, not what was loaded before
+    @staticmethod
+    def same_length_variant(spec):
+        """another configuration that serialises to exactly the same length (and, written at once, the same
+        modification second): one byte flipped in every binary field, one character changed in every text field"""
+        out = {}
+        for k, v in spec.items():
+            t = v[0]
+            if t in ("b", "pk") and len(v[1]) >= 2:
+                out[k] = [t, ("%02x" % (int(v[1][:2], 16) ^ 0x01)) + v[1][2:]]
+            elif t == "kp":
+                out[k] = [t, ("%02x" % (int(v[1][:2], 16) ^ 0x01)) + v[1][2:], v[2]]
+            elif t == "s" and v[1] and v[1][0].isascii() and v[1][0].isalnum():
+                out[k] = [t, ("b" if v[1][0] != "b" else "c") + v[1][1:]]
+            else:
+                out[k] = list(v)
+        return out
+
+    def rewrite_case(self, spec, fmt, sdir):
+        from yowsup.config.manager import ConfigManager
+        ctx = self.ctx
+        spec2 = self.same_length_variant(spec)
+        if spec2 == spec:
+            return
+        t1, t2 = impl_to_str(spec, fmt), impl_to_str(spec2, fmt)
+        if t1 is None or t2 is None or t1 == t2:
+            return
+        self.count("rewrite", ("rw", fmt, json.dumps(spec, sort_keys=True)), nt=True)
+        base = {"kind": "rewrite", "fmt": fmt, "first": spec, "second": spec2,
+                "same_serialised_length": len(t1.encode("utf-8")) == len(t2.encode("utf-8"))}
+        cm = ConfigManager()
+        # by profile name
+        name = self.fresh("prof")
+        pdir = os.path.join(self.root, name)
+        cj = os.path.join(pdir, "config.json")
+        try:
+            cm.save(name, cfg_from_spec(spec), fmt)
+            self.load_both(name, [(cj, t1)], [self.root, pdir], ("ok", fmt_view(fmt, spec)),
+                           dict(base, load="profile", step="first"), "rewrite_then_load",
+                           key=K_KEYVAL_PROFILE if fmt == KEYVAL else None)
+            cm.save(name, cfg_from_spec(spec2), fmt)
+            self.load_both(name, [(cj, t2)], [self.root, pdir], ("ok", fmt_view(fmt, spec2)),
+                           dict(base, load="profile", step="second"), "rewrite_then_load",
+                           key=K_KEYVAL_PROFILE if fmt == KEYVAL else None)
+        except Exception as e:
+            ctx.violation("oracle:rewrite_then_load", dict(base, load="profile",
+                                                           observed="raised %s: %s" % (type(e).__name__, e)))
+        shutil.rmtree(pdir, ignore_errors=True)
+        # by path: saved with dest=, then the file replaced by other means (another process, an editor, a restore)
+        path = os.path.join(sdir, self.fresh("cfg") + {JSON: ".json", KEYVAL: ".yo"}[fmt])
+        try:
+            cm.save("unused", cfg_from_spec(spec), fmt, dest=path)
+        except Exception:
+            write_text(path, t1)
+        self.load_both(path, [(path, t1)], [], ("ok", fmt_view(fmt, spec)), dict(base, load="path", step="first"),
+                       "rewrite_then_load")
+        st = os.stat(path)
+        write_text(path, t2)
+        os.utime(path, ns=(st.st_atime_ns, st.st_mtime_ns))       # same modification time as the first version
+        self.load_both(path, [(path, t2)], [], ("ok", fmt_view(fmt, spec2)), dict(base, load="path", step="second"),
+                       "rewrite_then_load")
+        os.remove(path)
+
     # ---- hand-written / mismatching files: correspondence of the resolver only
     def resolver_case(self, sdir, text, ext):
         path = os.path.join(sdir, self.fresh("hw") + ext)
@@ -1025,8 +1088,12 @@ def run(ctx):
             if not full and idx % 16:
                 continue
             R.roundtrip_case(spec, JSON, sdir, not quick and idx % 7 == 0)
+            if idx % 5 == 0:
+                R.rewrite_case(spec, JSON, sdir)
             if kv and in_kv_domain(spec):
                 R.roundtrip_case(spec, KEYVAL, sdir, not quick and idx % 7 == 0)
+                if idx % 5 == 0:
+                    R.rewrite_case(spec, KEYVAL, sdir)
             elif model:
                 # out of the key=value domain: model and code must still agree on what comes back
                 t = impl_to_str(spec, KEYVAL)
@@ -1176,6 +1243,8 @@ def replay(ctx, data):
     R.save_prog_diffs = []
     if kind == "roundtrip":
         R.roundtrip_case(case["spec"], case["fmt"], ctx.scratch_files, True)
+    elif kind == "rewrite":
+        R.rewrite_case(case["first"], case["fmt"], ctx.scratch_files)
     elif kind == "crash":
         old = case.get("old")
         R.save_case(old and (old[0], old[1]), case["new"], case["fmt"], c19_trace.have_strace())
